@@ -10,5 +10,5 @@ assert sys.argv[2] in s, "pattern not found"
 open(p,'w').write(s.replace(sys.argv[2],sys.argv[3],1))
 PY
 ( cd /repo && export GOFLAGS=-mod=mod GOPROXY=off GOSUMDB=off GOTOOLCHAIN=local && go build ./... 2>&1 | head -5 )
-/verif/bin/vcheck -p "$prop" 2>&1 | grep -E "VIOLATION|KNOWN|^C[0-9]+:" | cut -c1-200 | head -8
+/verif/bin/vcheck -evidence /tmp/verif-scratch-evidence -p "$prop" 2>&1 | grep -E "VIOLATION|KNOWN|^C[0-9]+:" | cut -c1-200 | head -8
 ( cd /repo && git checkout -q -- . )
